@@ -3,6 +3,7 @@
 CONSTANTS
     MaxLen = 3
     Mode = "stale"
+    RawNorm = "copy"
     ResultIds = {2}
     EmitOn = FALSE
 INIT Init
